@@ -76,6 +76,38 @@ Proof.
     + split; [exact A|]. cbn zeta in *. lia.
 Qed.
 
+(* the same from any state of the loop *)
+Lemma terminates_from l h more1 more2 :
+  flag (fold_left sstep h l) = true -> wake (fold_left sstep h l) = true ->
+  ph (fold_left sstep (h ++ more1 ++ SPollReturn :: more2) l) = Exited.
+Proof.
+  intros Hf Hw. rewrite !fold_left_app. cbn [fold_left]. apply exited_stable.
+  destruct (flag_wake_stable more1 _ Hf Hw) as [Hf' Hw'].
+  set (x := fold_left sstep more1 (fold_left sstep h l)) in *.
+  cbn [sstep]. destruct (ph x) eqn:E; [|exact E]. rewrite Hw', Hf'. reflexivity.
+Qed.
+
+(* shutdown() at any moment relative to the start of the loop.  Its store came before the thread entered the loop: the
+   loop ends without polling.  It came afterwards (both halves): the next return of the poll ends the loop. *)
+Theorem shutdown_around_start before after :
+  (flag (fold_left sstep before loop_init) = true -> ph (srun_from false before after) = Exited)
+  /\ (forall h more1 more2, after = h ++ more1 ++ SPollReturn :: more2 ->
+       flag (fold_left sstep h (start false (fold_left sstep before loop_init))) = true ->
+       wake (fold_left sstep h (start false (fold_left sstep before loop_init))) = true ->
+       ph (srun_from false before after) = Exited).
+Proof.
+  split.
+  - intros Hf. unfold srun_from, start. rewrite Hf. apply exited_stable. reflexivity.
+  - intros h more1 more2 -> Hf Hw. unfold srun_from. apply terminates_from; assumption.
+Qed.
+
+(* resetting the flag on entry loses a shutdown() that came before the thread entered its loop: the wake-up is consumed
+   as an ordinary event and the loop polls for ever *)
+Lemma clear_on_entry_refuted :
+  ph (srun_from true [SStore; SNotify] [SPollReturn; SOther; SPollReturn; SPollReturn]) = Waiting
+  /\ ph (srun_from false [SStore; SNotify] [SPollReturn; SOther; SPollReturn; SPollReturn]) = Exited.
+Proof. vm_compute. split; reflexivity. Qed.
+
 Example shutdown_example :
   ph (srun [SOther; SPollReturn; SOther; SStore; SOther; SNotify; SOther; SPollReturn; SOther]) = Exited
   /\ ph (srun [SOther; SPollReturn; SStore; SOther; SPollReturn; SNotify]) = Exited
